@@ -107,6 +107,8 @@ let handle_paths (kind : string) (fs : sexp list) (results : sexp list) : (strin
              else if hyps && not (reads_b t pl) then add "specfail" (Printf.sprintf "reads_respected mode=%s tree=%s" mode s1)
            end)
       end
+    | L [A "crash"; A mode; S msg] ->
+      add "specfail" (Printf.sprintf "no_crash mode=%s the Processor killed the process on this fetch list: %s" mode msg)
     | _ -> add "error" "unrecognised result") results;
   (* non-trivial: the stage completes a fetch with a NESTED provider and the spec was evaluated *)
   let nested f = f.prp <> [] in
@@ -156,6 +158,8 @@ let handle (x : sexp) : (string * string) list =
              else if not (run_respects_b l (run_lr t) && run_respects_b l (run_rl t)) then
                add "specfail" (Printf.sprintf "respects_deps/run mode=%s tree=%s" mode s1)
            end)
+      | L [A "crash"; A mode; S msg] ->
+        add "specfail" (Printf.sprintf "no_crash mode=%s the Processor killed the process on this fetch list: %s" mode msg)
       | _ -> add "error" "unrecognised result") results;
     if !res = [] then [("ok", if kind = "dag" && has_fork_and_join l then "nt" else "tr")] else List.rev !res
   | _ -> [("error", "unrecognised case")]
